@@ -7,6 +7,7 @@ import (
 	"fmt"
 	"go/token"
 	"go/types"
+	"os"
 
 	"golang.org/x/tools/go/ssa"
 )
@@ -185,7 +186,7 @@ func checkC14(c *Ctx) {
 				if lead.Parent() == decisionAt.Parent() && !async {
 					s1 := b.la.sectionOf(decisionAt, b.boxLock)
 					s2 := b.la.sectionOf(lead, b.boxLock)
-					if s1 != nil && s1 == s2 && b.la.Holds(decisionAt, b.boxLock, LockW) && b.la.Holds(lead, b.boxLock, LockW) && decision.Parent() == decisionAt.Parent() {
+					if s1 != nil && s1 == s2 && b.la.Holds(decisionAt, b.boxLock, LockW) && b.la.Holds(lead, b.boxLock, LockW) && (decision.Parent() == decisionAt.Parent() || lockFree(decision.Parent())) {
 						okSec = true
 						shown = decisionAt
 						break
@@ -412,6 +413,25 @@ func checkC14(c *Ctx) {
 		s := b.sl.Slice(arg)
 		fromSnap := snap != nil && s[snap]
 		fromField := sliceHasFieldLoad(s, b.fMessages)
+		if !fromSnap || !fromField {
+			// the snapshot travels in a field of an object made for this invocation of Send (`out.backlog`):
+			// what Send's own code stores into that field
+			for v := range s {
+				fa, isFA := v.(*ssa.FieldAddr)
+				if !isFA {
+					continue
+				}
+				f := fieldOfAddr(fa)
+				if f == nil || f.Exported() || f == b.fMessages || f == b.fPending || f == b.fStarted {
+					continue
+				}
+				for _, sto := range storesToField(sendRegion, f) {
+					s2 := b.sl.Slice(sto.Val)
+					fromSnap = fromSnap || (snap != nil && s2[snap])
+					fromField = fromField || sliceHasFieldLoad(s2, b.fMessages)
+				}
+			}
+		}
 		// executes after the mark: the closure is deferred/called after the mark
 		after := false
 		if d.Parent() == b.send {
@@ -424,6 +444,9 @@ func checkC14(c *Ctx) {
 					}
 				}
 			}
+		}
+		if os.Getenv("TSSDEBUG") != "" {
+			fmt.Fprintf(os.Stderr, "C14.O1 drain %s fromSnap=%v fromField=%v after=%v\n", m.Pos(d.Pos()), fromSnap, fromField, after)
 		}
 		c.Check(fromSnap && fromField && after, O1, FuncName(d.Parent()), "drain re-dispatches the snapshot after the mark", m.Pos(d.Pos()),
 			"iterates pendingMessages[topic].messages taken in Send's section; runs after startedSending[topic] is set",
@@ -498,4 +521,27 @@ func (b *boxModel) liftToGC(in ssa.Instruction) ssa.Instruction {
 		in = cs[0].(ssa.Instruction)
 	}
 	return nil
+}
+
+// lockFree: the function performs no lock operation itself and calls nothing of the module that could —
+// a look-up helper called inside a critical section runs entirely inside that section ("the caller holds
+// the lock").
+func lockFree(fn *ssa.Function) bool {
+	if fn == nil || fn.Blocks == nil {
+		return false
+	}
+	for _, in := range instrsOf(fn) {
+		ci, ok := in.(ssa.CallInstruction)
+		if !ok {
+			continue
+		}
+		if _, isB := ci.Common().Value.(*ssa.Builtin); isB {
+			continue
+		}
+		if _, isCall := in.(*ssa.Call); !isCall {
+			return false // go / defer
+		}
+		return false
+	}
+	return true
 }
